@@ -399,6 +399,7 @@ type modTarget struct {
 	region bool
 	sl     Val  // slice whose contents [lo,hi) are modified
 	lo, hi Term // relative to the slice
+	ghostAll string // whole ghost component (all keys)
 	isMap  bool // the contents of map object mapID (of map type mapT) are modified
 	mapID  Term
 	mapT   types.Type
@@ -411,6 +412,13 @@ func (e *Env) evalModLoc(x Expr) modTarget {
 	case *ECall:
 		if n.Fn == "ghost" {
 			return modTarget{loc: e.ghostLoc(n)}
+		}
+		if n.Fn == "ghostall" && len(n.Args) == 1 {
+			// ghostall(name): the ghost component `name` of every object
+			if id, ok := n.Args[0].(*EIdent); ok {
+				return modTarget{ghostAll: "ghost:" + id.Name}
+			}
+			sfail("ghostall(name)")
 		}
 		if n.Fn == "contents" && len(n.Args) == 1 {
 			// contents(m): the entries of the map m denotes (not the variable/field holding m)
@@ -528,6 +536,12 @@ func (vc *VC) havocModLoc(st *State, env *Env, m ModLoc, key string) {
 
 func (vc *VC) havocTarget(st *State, tg modTarget) {
 	switch {
+	case tg.ghostAll != "":
+		if _, ok := vc.compSort[tg.ghostAll]; !ok {
+			vc.compSort[tg.ghostAll] = "(Array Int Int)"
+			vc.compMeta[tg.ghostAll] = compMetaT{kind: LGhost, t: specInt}
+		}
+		vc.heapHavoc(st, tg.ghostAll)
 	case tg.isMap:
 		_, vt, _, ok := vc.mapComps(tg.mapT)
 		if !ok {
@@ -620,6 +634,15 @@ func (vc *VC) frameConds(st *State) []frameCond {
 		cur := st.heap[comp]
 		base := vc.heapGet(vc.entry, comp, vc.compSort[comp])
 		if cur == base {
+			continue
+		}
+		wholly := false
+		for _, t := range targets {
+			if t.ghostAll == comp {
+				wholly = true
+			}
+		}
+		if wholly {
 			continue
 		}
 		cur = vc.patAtom(cur, vc.compSort[comp])
@@ -967,7 +990,10 @@ func (vc *VC) copyBuiltin(st *State, c *ssa.CallCommon, args []Val, rt types.Typ
 	}
 	et := c.Args[0].Type().Underlying().(*types.Slice).Elem()
 	if k := kindOf(et); k == KStruct || k == KArray {
-		vc.unsupportedf("copy of slice of structs")
+		if k == KStruct && src.K == KSlice {
+			return vc.copyStructs(st, dst, src, et, rt)
+		}
+		vc.unsupportedf("copy of slice of arrays")
 		return vc.opaqueResult(st, rt, "copy")
 	}
 	var n Term
